@@ -35,12 +35,12 @@ func (w *world) canon(cnt simCounters) string {
 		fmt.Fprintf(&sb, "%c t%d v%d l%d c%d ", byte(r.state), r.term, r.votedFor, r.leader, r.commitIndex)
 		fmt.Fprintf(&sb, "log(%d:", r.log.PrevIndex())
 		for i := r.log.PrevIndex() + 1; i <= r.lastLogIndex; i++ {
-			e := &entry{}
-			if err := r.storage.getEntry(i, e); err != nil {
+			rec, _, ok := w.led.recAt(n, i)
+			if !ok {
 				fmt.Fprintf(&sb, "?%d,", i)
 				continue
 			}
-			fmt.Fprintf(&sb, "%v,", recOf(e))
+			fmt.Fprintf(&sb, "%v,", rec)
 		}
 		fmt.Fprintf(&sb, ")last%d/%d ", r.lastLogIndex, r.lastLogTerm)
 		fmt.Fprintf(&sb, "snap%d/%d ", r.snaps.index, r.snaps.term)
@@ -119,12 +119,12 @@ func (w *world) canon(cnt simCounters) string {
 	var cs []string
 	w.mu.Lock()
 	for _, c := range w.conns {
-		dead := c.closed && (c.discSent || c.identNid == 0 || !w.nodes[c.srv].up)
+		dead := c.closed && (!w.opt.Disconnects || c.discSent || c.identNid == 0 || !w.nodes[c.srv].up)
 		if dead {
 			continue
 		}
 		pend := c.pendingBytesLocked()
-		cs = append(cs, fmt.Sprintf("%d>%d#%03d cl%v p%s h%s r%s id%d ds%v", c.cli, c.srv, c.seq, c.closed, hashBytes(pend), hashBytes(c.held.Bytes()), hashBytes(c.s2c.Bytes()), c.identNid, c.discSent))
+		cs = append(cs, fmt.Sprintf("%d>%d#%03d cl%v p%s h%s r%s id%d ds%v", c.cli, c.srv, c.seq, c.closed, canonPending(pend), hashBytes(c.held.Bytes()), hashBytes(c.s2c.Bytes()), c.identNid, c.discSent))
 	}
 	var bl []string
 	for k := range w.blocked {
@@ -149,6 +149,24 @@ func (w *world) canon(cnt simCounters) string {
 	}
 	fmt.Fprintf(&sb, "\ncnt%+v\n", cnt)
 	sb.WriteString(w.led.digest())
+	return sb.String()
+}
+
+// canonPending describes all requests in flight on a connection.
+func canonPending(b []byte) string {
+	if len(b) == 0 {
+		return "-"
+	}
+	var sb strings.Builder
+	for len(b) > 0 {
+		p := parseRequest(b)
+		if p == nil || !p.complete || p.size == 0 {
+			sb.WriteString("partial:" + hashBytes(b))
+			break
+		}
+		sb.WriteString("[" + p.canon + "]")
+		b = b[p.size:]
+	}
 	return sb.String()
 }
 
